@@ -201,7 +201,7 @@ func inferPatterns(body string, names []string) []string {
 				full = append(full, "("+c.src+")")
 			}
 		}
-		if len(full) >= 3 {
+		if len(full) >= 6 {
 			break
 		}
 	}
